@@ -527,6 +527,31 @@ def rule_config(program, ctx, prop=P, rid="C03.config"):
         raise AnalysisError("no read of the `validators` option found")
 
 
+def rule_verbatim(program, ctx, prop=P, rid="C03.verbatim"):
+    from ..lib import concrete_add_events
+
+    ctx.rule(
+        rid,
+        "what the validators see is what the client sent: each add_event builds the event as `Event(**event_json)` from its own parameter, untouched. A model / "
+        "normaliser in between (pydantic coercing \"1700000000\" or 1700000000.0 to int, stripping, lower-casing) makes is_signed's canonical-form guards "
+        "(`type(created_at) is int`, lower-case hex) vacuous: they then test the repaired copy, and an event whose wire form does not hash to its id is acknowledged",
+        floor=2,
+    )
+    for fn, _owners in concrete_add_events(program):
+        param = fn.args.args[1].arg if len(fn.args.args) > 1 else None
+        builds = [c for c in ast.walk(fn) if isinstance(c, ast.Call) and call_name(c) == "Event"]
+        if not builds or param is None:
+            ctx.bad(finding_func(prop, rid, fn, f"{qual_of(fn)} no longer builds the event with Event(**<its parameter>)", text="def add_event(...) :: Event"))
+            continue
+        for c in builds:
+            okv = not c.args and len(c.keywords) == 1 and c.keywords[0].arg is None and dotted(c.keywords[0].value) == param
+            if okv and not [s_ for s_ in stores_of(fn, param)]:
+                ctx.ok(rid, c, f"{qual_of(fn)}: Event(**{param}), parameter untouched")
+            else:
+                ctx.bad(finding_at(prop, rid, c, f"{qual_of(fn)}: the event is built from `{ast.unparse(c)[:70]}`, not from the client's JSON as received: the validators check a "
+                                   "coerced / normalised copy, so their format guards no longer speak about what was signed and sent"))
+
+
 def run(program, ctx):
     from ..lib import rule_awaited
 
@@ -537,6 +562,7 @@ def run(program, ctx):
     rule_gate(program, ctx)
     rule_stored(program, ctx)
     rule_chain(program, ctx)
+    rule_verbatim(program, ctx)
     rule_defaults(program, ctx)
     rule_is_signed(program, ctx)
     rule_id(program, ctx)
